@@ -186,12 +186,13 @@ Record tgt := mktgt {
   t_pni : option Z;
   t_pos : tpos;
   t_res : option deppdu;            (* dep_res of the pending call *)
-  t_app : list (Z * list Z);        (* application script: (rtox, response) per received payload *)
+  t_app : list (list Z * list Z);   (* application script per received payload: (RTOX values requested one after the
+                                       other with send_timeout_extension before answering, response) *)
   t_out : list tres;                (* results of exchange() so far *)
   t_rtx : list tres;                (* results of send_timeout_extension() so far *)
   t_act : bool }.                   (* Target.activate returned the general bytes *)
 
-Definition tgt_init (app : list (Z * list Z)) : tgt := mktgt None TListen None app [] [] false.
+Definition tgt_init (app : list (list Z * list Z)) : tgt := mktgt None TListen None app [] [] false.
 
 Definition t_stop (t : tgt) (r : tres) : tgt * option pdu :=
   (mktgt (t_pni t) TStop (t_res t) (t_app t) (t_out t ++ [r]) (t_rtx t) (t_act t), None).
@@ -214,19 +215,21 @@ Definition t_start_send (c : tcfg) (t : tgt) (resp : list Z) : tgt * option pdu 
          end
   end.
 
+(* the application goes on: the next send_timeout_extension(x), or exchange(resp) *)
+Definition t_app_continue (c : tcfg) (t : tgt) : tgt * option pdu :=
+  match t_app t with
+  | [] => (mktgt (t_pni t) TStop (t_res t) [] (t_out t) (t_rtx t) (t_act t), None)
+  | (x :: rt, resp) :: rest =>
+      (* send_timeout_extension(x) *)
+      t_emit (mktgt (t_pni t) (t_pos t) (t_res t) ((rt, resp) :: rest) (t_out t) (t_rtx t) (t_act t))
+             TRtox (mkdep F_RTOX 0 (tc_did c) (tc_nad c) [x])
+  | ([], resp) :: rest =>
+      t_start_send c (mktgt (t_pni t) (t_pos t) (t_res t) rest (t_out t) (t_rtx t) (t_act t)) resp
+  end.
+
 (* exchange() returned payload to the application; the application answers *)
 Definition t_app_step (c : tcfg) (t : tgt) (payload : list Z) : tgt * option pdu :=
-  let t1 := mktgt (t_pni t) (t_pos t) (t_res t) (t_app t) (t_out t ++ [TOk payload]) (t_rtx t) (t_act t) in
-  match t_app t with
-  | [] => (mktgt (t_pni t1) TStop (t_res t1) [] (t_out t1) (t_rtx t1) (t_act t1), None)
-  | (x, resp) :: rest =>
-      if 0 <? x then
-        (* send_timeout_extension(x) *)
-        t_emit (mktgt (t_pni t1) (t_pos t1) (t_res t1) ((0, resp) :: rest) (t_out t1) (t_rtx t1) (t_act t1))
-               TRtox (mkdep F_RTOX 0 (tc_did c) (tc_nad c) [x])
-      else
-        t_start_send c (mktgt (t_pni t1) (t_pos t1) (t_res t1) rest (t_out t1) (t_rtx t1) (t_act t1)) resp
-  end.
+  t_app_continue c (mktgt (t_pni t) (t_pos t) (t_res t) (t_app t) (t_out t ++ [TOk payload]) (t_rtx t) (t_act t)).
 
 (* while req.pfb.fmt == MoreInformation: recv_data += req.data; res = ACK(...) ...; recv_data += req.data *)
 Definition t_recv_chain (c : tcfg) (t : tgt) (req : deppdu) (acc : list Z) : tgt * option pdu :=
@@ -276,12 +279,7 @@ Definition t_accept (c : tcfg) (t : tgt) (req : deppdu) : tgt * option pdu :=
         match data req with
         | [] => t_stop_rtx t TNone                  (* send_timeout_extension returns None *)
         | x :: _ =>
-            let t1 := mktgt (t_pni t) (t_pos t) (t_res t) (t_app t) (t_out t) (t_rtx t ++ [TOk [Z.land x 63]]) (t_act t) in
-            match t_app t1 with
-            | (_, resp) :: rest =>
-                t_start_send c (mktgt (t_pni t1) (t_pos t1) (t_res t1) rest (t_out t1) (t_rtx t1) (t_act t1)) resp
-            | [] => (mktgt (t_pni t1) TStop (t_res t1) [] (t_out t1) (t_rtx t1) (t_act t1), None)
-            end
+            t_app_continue c (mktgt (t_pni t) (t_pos t) (t_res t) (t_app t) (t_out t) (t_rtx t ++ [TOk [Z.land x 63]]) (t_act t))
         end
       else t_stop_rtx t TNone       (* send_timeout_extension returns None; the harness application ends *)
   | TStop => (t, None)
@@ -615,7 +613,7 @@ Definition ini_deactivate (ic : icfg) (tc : tcfg) (release : option bool) (w : w
 Record obs := mkobs { o_frames : list logent; o_ini : list ires; o_tgt : list tres; o_rtx : list tres; o_act : bool }.
 
 Definition conversation (n fuel : nat) (ic : icfg) (tc : tcfg) (script : list (fate * fate))
-  (payloads : list (list Z)) (app : list (Z * list Z)) (timeout : Z) (release : option bool) : obs :=
+  (payloads : list (list Z)) (app : list (list Z * list Z)) (timeout : Z) (release : option bool) : obs :=
   let w0 := mkw (tgt_init app) script 0 [] in
   let '(ir, w1) := ini_app n fuel ic tc 0 payloads timeout w0 in
   let w2 := ini_deactivate ic tc release w1 in
@@ -627,11 +625,11 @@ Definition conversation (n fuel : nat) (ic : icfg) (tc : tcfg) (script : list (f
    self.pni = None, stores the new first command and the new parameters.  Nothing else of the protocol state
    survives: dep_res / send_data / recv_data are locals of exchange(). *)
 Definition ini_activate (p_old : Z) : Z := 0.
-Definition tgt_activate (t_old : tgt) (app : list (Z * list Z)) : tgt := mktgt None TListen None app [] [] false.
+Definition tgt_activate (t_old : tgt) (app : list (list Z * list Z)) : tgt := mktgt None TListen None app [] [] false.
 
 (* a conversation on objects that were used before: old packet number p_old, old target state t_old *)
 Definition conversation_after (p_old : Z) (t_old : tgt) (n fuel : nat) (ic : icfg) (tc : tcfg) (script : list (fate * fate))
-  (payloads : list (list Z)) (app : list (Z * list Z)) (timeout : Z) (release : option bool) : obs :=
+  (payloads : list (list Z)) (app : list (list Z * list Z)) (timeout : Z) (release : option bool) : obs :=
   let w0 := mkw (tgt_activate t_old app) script 0 [] in
   let '(ir, w1) := ini_app n fuel ic tc (ini_activate p_old) payloads timeout w0 in
   let w2 := ini_deactivate ic tc release w1 in
